@@ -1157,17 +1157,29 @@ func (e *Engine) doAppend(st *State, f *Frame, args []Value, ins ssa.Instruction
 			st.setBytesAt(dst.obj, dst.path, &BytesVal{mem: nm, n: b.n})
 			return ret(&SliceVal{obj: dst.obj, path: dst.path, off: dst.off, len: need, cap: dst.cap})
 		}
-		// reallocate with exactly the needed capacity (one admissible runtime behaviour)
+		// reallocate: exactly the needed capacity when sizes are symbolic, amortised doubling when
+		// they are concrete (both are admissible runtime behaviours)
+		newcap := need
+		if need.IsConst() && dcap.IsConst() {
+			nc := 2 * dcap.k
+			if nc < need.k {
+				nc = need.k
+			}
+			if nc < 8 {
+				nc = 8
+			}
+			newcap = c64(int64(nc))
+		}
 		m := memZero
 		if dst.obj != 0 {
 			b := st.bytesAt(dst.obj, dst.path)
 			m = memCopy(m, c64(0), dlen, b.mem, dst.off)
 		}
 		m = memCopy(m, dlen, sn, sm, soff)
-		id := st.newObj(&BytesVal{mem: m, n: need}, nil, "append")
-		st.allocSum = Add(st.allocSum, need)
-		st.allocMax = Ite(Ult(st.allocMax, need), need, st.allocMax)
-		return ret(&SliceVal{obj: id, off: c64(0), len: need, cap: need})
+		id := st.newObj(&BytesVal{mem: m, n: newcap}, nil, "append")
+		st.allocSum = Add(st.allocSum, newcap)
+		st.allocMax = Ite(Ult(st.allocMax, newcap), newcap, st.allocMax)
+		return ret(&SliceVal{obj: id, off: c64(0), len: need, cap: newcap})
 	}
 	// generic element slices: concrete lengths
 	src, ok := args[1].(*SliceVal)
